@@ -65,8 +65,12 @@ Body == {"reject", "terms+reject", "accept", "empty",
          (* other content that is deactivated is other content all the same *)
          "reject+inactive-term", "inactive-term+reject"}
 AttrOrder == {"comment-first", "active-first"}
-Shapes == {[active |-> a, comment |-> c, body |-> b, order |-> o, dupxmlns |-> d, extra |-> x] :
+(* the prefix the jcmd namespace is bound to: as Junos writes it, another one, two prefixes for the one namespace *)
+NsPrefix == {"jcmd", "other", "two"}
+Shapes == {[active |-> a, comment |-> c, body |-> b, order |-> o, dupxmlns |-> d, extra |-> x, nspfx |-> "jcmd"] :
              a \in Active, c \in Comment, b \in Body, o \in AttrOrder, d \in BOOLEAN, x \in BOOLEAN}
+          \cup {[active |-> a, comment |-> c, body |-> b, order |-> o, dupxmlns |-> FALSE, extra |-> FALSE, nspfx |-> n] :
+             a \in Active, c \in {"none", "fltr", "fltr-bad", "other"}, b \in {"reject", "terms+reject"}, o \in AttrOrder, n \in NsPrefix \ {"jcmd"}}
 ParseableComment(c) == c \in {"fltr", "fltr-nospace", "fltr-bare", "fltr-doublestar", "fltr-slashes", "fltr-unterminated",
                               "fltr-wrapped", "fltr-wrapped-after-op", "fltr-wrapped-plus"}
 MarkedComment(c) == ParseableComment(c) \/ c \in {"fltr-bad", "fltr-empty"}
